@@ -1,2 +1,71 @@
-From ZC Require Import Model.Base Model.Listener.
-Example C16_placeholder : True. Proof. exact I. Qed.
+(* C16 - back-to-back duplicate datagrams change nothing. Statements only.
+   Model/Listener.v: AsyncListener's oversize guard, duplicate guard and TC deferral (tied to the real class by replaying logged
+   datagram / timer labels). Vocabulary (after, outcome, fits, train, distinct_by_bytes ...): Proofs/C16_listener.v. *)
+From ZC Require Import Model.Base Model.Dict Model.Listener Proofs.C16_listener.
+
+(* delivering a datagram without QU question twice in immediate succession - from any source address - is delivering it once:
+   the second copy is dropped and the state is exactly the state after the first *)
+Theorem C16_idem : forall s m a a' t he he' tc tc',
+  lm_has_qu m = false -> fits m ->
+  datagram (after s m a t he tc) m a' t he' tc' = (after s m a t he tc, ODuplicate).
+Proof. exact duplicate_ignored_same_time. Qed.
+
+(* ... and so is any repeat less than one second after a processed first copy; exactly 1000 ms later it is processed again *)
+Theorem C16_window : forall s m a a' t t' he he' tc tc',
+  lm_has_qu m = false -> fits m -> outcome s m a t he tc <> ODuplicate -> t' - t < 1000 ->
+  datagram (after s m a t he tc) m a' t' he' tc' = (after s m a t he tc, ODuplicate).
+Proof. exact duplicate_ignored. Qed.
+
+Theorem C16_window_exact : forall s data now,
+  is_duplicate s data now = true
+  <-> ls_data s = Some data /\ now - 1000 < ls_last_time s /\ ls_last_msg s = Some false.
+Proof. exact window_exact. Qed.
+
+(* datagrams with a QU question are exempt: a processed one is processed again when repeated (the source of the open finding
+   C16-qu-double-mcast: the statement allows only the unicast reply to double) *)
+Theorem C16_qu_exempt : forall s m a a' t t' he he' tc tc',
+  lm_has_qu m = true -> fits m -> outcome s m a t he tc <> ODuplicate ->
+  outcome (after s m a t he tc) m a' t' he' tc' <> ODuplicate
+  /\ outcome (after s m a t he tc) m a' t' he' tc' <> OOversize.
+Proof. exact qu_processed_again_partial. Qed.
+
+(* oversize datagrams are ignored (C15) *)
+Theorem C16_oversize : forall s m a t he tc,
+  Z.of_nat (length (lm_data m)) > 8966 -> datagram s m a t he tc = (s, OOversize).
+Proof. exact oversize_ignored. Qed.
+
+(* truncated queries (C12): an identical continuation is ignored; the train from one source is answered once - when its timer
+   fires or when a complete query from that source arrives - with exactly the distinct packets in arrival order *)
+Theorem C16_tc_identical : forall s m a t tc l x,
+  tc_query m -> outcome s m a t true tc <> ODuplicate ->
+  d_get text_eqb (ls_deferred s) a = Some l -> In x l -> lm_data x = lm_data m ->
+  outcome s m a t true tc = ODeferred
+  /\ ls_deferred (after s m a t true tc) = ls_deferred s
+  /\ ls_timers (after s m a t true tc) = ls_timers s.
+Proof. exact tc_identical_ignored. Qed.
+
+Theorem C16_tc_timer : forall a s es s' dl,
+  wf s -> deferred_for s a = [] -> es <> [] -> train a s es s' -> train_deadline es = Some dl ->
+  (forall now, now < dl -> tc_fire s' a now = None)
+  /\ (forall now, dl <= now ->
+        exists s'', tc_fire s' a now = Some (s'', ORespond a (distinct_by_bytes (map ar_msg es)))
+          /\ d_get text_eqb (ls_deferred s'') a = None /\ timer_for s'' a = None
+          /\ (forall now', tc_fire s'' a now' = None)).
+Proof. exact tc_answered_once_timer. Qed.
+
+Theorem C16_tc_query : forall a s es s' m now tc,
+  wf s -> deferred_for s a = [] -> train a s es s' -> full_query m ->
+  outcome s' m a now true tc <> ODuplicate ->
+  exists s'', datagram s' m a now true tc = (s'', ORespond a (distinct_by_bytes (map ar_msg es) ++ [m]))
+    /\ d_get text_eqb (ls_deferred s'') a = None /\ timer_for s'' a = None
+    /\ (forall now', tc_fire s'' a now' = None).
+Proof. exact tc_answered_once_query. Qed.
+
+Print Assumptions C16_idem.
+Print Assumptions C16_window.
+Print Assumptions C16_window_exact.
+Print Assumptions C16_qu_exempt.
+Print Assumptions C16_oversize.
+Print Assumptions C16_tc_identical.
+Print Assumptions C16_tc_timer.
+Print Assumptions C16_tc_query.
